@@ -197,6 +197,11 @@ def _flag_of(lit, test, bg, fn):
     return None
 
 
+def _bases(ax):
+    """the parameter itself or a value-preserving array conversion of it"""
+    return [P(ax)] + [("call", G(f), (P(ax),), ()) for f in ("numpy.asarray", "numpy.array", "numpy.asanyarray", "numpy.asarray_chkfinite")]
+
+
 def sorter(prog, rep):
     q = "virocon.utils.sort_points_to_form_continuous_line"
     fn = prog.func(q)
@@ -207,12 +212,15 @@ def sorter(prog, rep):
     t = b.term(rets[-1].value, rets[-1])
     ok = False
     orders = set()
+    raw = []
     if t[0] == "tuple" and len(t[1]) == 2:
         ok = True
         for ax, comp in zip(("x", "y"), t[1]):
             for a in alts(comp):
-                if a[0] == "sub" and a[1] == P(ax):
+                if a[0] == "sub" and a[1] in _bases(ax):
                     orders.add(a[2])
+                    if a[1] == P(ax):
+                        raw.append(ax)
                 else:
                     ok = False
         xs = {a[2] for a in alts(t[1][0]) if a[0] == "sub"}
@@ -220,6 +228,11 @@ def sorter(prog, rep):
         ok = ok and xs == ys
     rep.check(ok, "C15.perm", f"{q}:same-order", fn.where(rets[-1]), "returns x[order], y[order] with the same order",
               f"x and y must be reordered with the SAME index list; found {show(t)[:200]}")
+    # x and y are documented as array_like; they are indexed with a LIST of node numbers, which only an ndarray takes as positions
+    rep.check(ok and not raw, "C15.perm", f"{q}:array-like", fn.where(rets[-1]), "x and y are converted to arrays before they are indexed with the order",
+              f"{sorted(set(raw))} indexed with the list of node numbers as passed: a Python list or tuple raises TypeError ('list indices must be integers or slices, not list'), "
+              "a pandas Series whose index is not 0..N-1 reads the numbers as LABELS (KeyError, or silently other points); the points handed to the neighbour search are "
+              "converted by np.c_, the returned ones must be too: x = np.asarray(x)")
     # the neighbour graph that is traversed: built from ALL points, and no edge is taken out of it afterwards
     graphs = [s_ for o in orders for s_ in walk(o) if s_[0] == "call" and s_[1] == G("networkx.dfs_preorder_nodes") and s_[2]]
     kg = set()
@@ -227,13 +240,13 @@ def sorter(prog, rep):
         for s_ in walk(g_[2][0]):
             if s_[0] == "call" and s_[1][0] == "attr" and s_[1][2] == "kneighbors_graph":
                 kg.add(s_)
-    pts = ("cols", (P("x"), P("y")))
+    pts_ok = lambda p_: p_[0] == "cols" and len(p_[1]) == 2 and p_[1][0] in _bases("x") and p_[1][1] in _bases("y")
     okg = len(kg) == 1
     whyg = f"expected one kneighbors_graph() behind the traversal, found {len(kg)}"
     if okg:
         k0 = next(iter(kg))
         fitted = k0[1][1]
-        okg = fitted[0] == "call" and fitted[1][0] == "attr" and fitted[1][2] == "fit" and fitted[2] == (pts,) \
+        okg = fitted[0] == "call" and fitted[1][0] == "attr" and fitted[1][2] == "fit" and len(fitted[2]) == 1 and pts_ok(fitted[2][0]) \
             and dict(k0[3]).get("mode", ("const", "connectivity")) == ("const", "connectivity") and not k0[2]
         whyg = f"the traversal graph must be the connectivity graph of a neighbour search fitted to ALL points np.c_[x, y]; found {show(k0)[:160]}"
     holders = set()
